@@ -265,8 +265,8 @@ def seeded_replay(pid):
             continue
         with open(meta_p) as fh:
             meta = json.load(fh)
-        if pid not in meta.get('caught_by', []) and meta.get('property') != pid:
-            continue
+        if meta.get('property') != pid:
+            continue   # only the changes seeded against this very property (others are replayed by their own check)
         tmp = tempfile.mkdtemp(prefix='verif_seed_')
         try:
             dst = os.path.join(tmp, 'repo')
